@@ -54,7 +54,7 @@ c.add_part({'part': 'thread-local-inventory', 'engine': 'IR inspection', 'thread
 fams = []
 def fam(name, entry, tier='quick', witness=False, w=1, opts=None, **kw):
     defs = ['%s=%s' % (k, v) for k, v in kw.items()] + (['WITNESS=1'] if witness else [])
-    o = {'time_limit': 420 if tier == 'quick' else 2400, 'max_viol': 100, 'libm_uf': 1, 'fp_traps': 1}
+    o = {'time_limit': 900 if tier == 'quick' else 2400, 'max_viol': 100, 'libm_uf': 1, 'fp_traps': 1}
     o.update(opts or {})
     fams.append(Family(name + ('-witness' if witness else ''), 'h_c19.c', entry, defs, opts=o, tier=tier, witness=witness, weight=w, validate=2))
 for ntr, ncores, pre, pad in ((1, 1, 2, 1), (1, 2, 3, 1), (2, 2, 3, 1), (3, 2, 2, 3), (4, 2, 2, 1), (2, 3, 2, 5), (3, 3, 2, 1)):
